@@ -1711,12 +1711,16 @@ impl OutstationSession {
         controls: ControlCollection<'_>,
     ) -> Response {
         // Handle each operate and write the response
-        let (status, len) = {
+        //
+        // The echo of a large request may not fit in the solicited transmit buffer.
+        // As for SELECT and DIRECT_OPERATE, a write error truncates the response
+        // instead of panicking the session.
+        let (result, len) = {
             let mut cursor = self.sol_tx_buffer.write_cursor();
             let _ = cursor.skip(ResponseHeader::LENGTH);
 
             // determine if we have a matching SELECT
-            let status = match self.state.select {
+            let result: Result<CommandStatus, scursor::WriteError> = match self.state.select {
                 Some(s) => {
                     match s.match_operate(
                         self.config.select_timeout,
@@ -1724,25 +1728,22 @@ impl OutstationSession {
                         frame_id,
                         controls.hash(),
                     ) {
-                        Err(status) => {
-                            controls.respond_with_status(&mut cursor, status).unwrap();
-                            status
-                        }
+                        Err(status) => controls
+                            .respond_with_status(&mut cursor, status)
+                            .map(|_| status),
                         Ok(()) => {
                             let max_controls_per_request = self.config.max_controls_per_request;
                             ControlTransaction::execute(
                                 self.control_handler.borrow_mut(),
                                 database,
                                 |tx, db| {
-                                    controls
-                                        .operate_with_response(
-                                            &mut cursor,
-                                            OperateType::SelectBeforeOperate,
-                                            tx,
-                                            db,
-                                            max_controls_per_request,
-                                        )
-                                        .unwrap()
+                                    controls.operate_with_response(
+                                        &mut cursor,
+                                        OperateType::SelectBeforeOperate,
+                                        tx,
+                                        db,
+                                        max_controls_per_request,
+                                    )
                                 },
                             )
                             .await
@@ -1751,18 +1752,19 @@ impl OutstationSession {
                 }
                 None => {
                     let status = CommandStatus::NoSelect;
-                    controls.respond_with_status(&mut cursor, status).unwrap();
-                    status
+                    controls
+                        .respond_with_status(&mut cursor, status)
+                        .map(|_| status)
                 }
             };
 
-            (status, cursor.written().len())
+            (result, cursor.written().len())
         };
 
         // Calculate IIN and return it
         let mut iin = Iin::default();
 
-        if status == CommandStatus::NotSupported {
+        if let Ok(CommandStatus::NotSupported) = result {
             iin |= Iin2::PARAMETER_ERROR;
         }
 
